@@ -326,6 +326,19 @@ func gen(t *rapid.T) Case {
 			if rapid.Bool().Draw(t, "testalias") {
 				g.Aliases = append(g.Aliases, wsgen.Alias{Pkg: from.Pkg, Name: "tal", Actual: dep})
 				dep = wsgen.Label(from.Pkg, "tal")
+				if rapid.Bool().Draw(t, "chain") {
+					g.Aliases = append(g.Aliases, wsgen.Alias{Pkg: from.Pkg, Name: "tal2", Actual: dep})
+					dep = wsgen.Label(from.Pkg, "tal2")
+				}
+				// the same alias is also used by dependants that are allowed to (tests, testonly targets): the verdict on the
+				// offending edge must not depend on who looked through the alias first
+				reach := g.Closure([]string{to.Label()})
+				for i := range g.Targets {
+					x := &g.Targets[i]
+					if x != to && x != from && (x.IsTest() || x.HasTag("testonly")) && !reach[x.Label()] && rapid.Bool().Draw(t, "shared") {
+						x.Deps = append(x.Deps, dep)
+					}
+				}
 			}
 			from.Deps = append(from.Deps, dep)
 			c.Defects = append(c.Defects, "test-dependency")
